@@ -927,25 +927,35 @@ func (s *Store) PutCommit(tree githash.Hash, parents []githash.Hash, message str
 	return mustHash(id), nil
 }
 
+// EncodeTag returns the full encoding of an annotated tag.
+func EncodeTag(target, targetKind, name, message string, keyPEM []byte) ([]byte, error) {
+	if !strings.HasSuffix(message, "\n") {
+		message += "\n"
+	}
+	payload := []byte(fmt.Sprintf("object %s\ntype %s\ntag %s\ntagger %s\n\n%s", target, targetKind, name, identLine(), message))
+	if keyPEM == nil {
+		return payload, nil
+	}
+	sig, err := SignSSH(payload, keyPEM)
+	if err != nil {
+		return nil, err
+	}
+	return append(append([]byte(nil), payload...), []byte(sig)...), nil
+}
+
 // PutTag writes an annotated tag object (harness use).
 func (s *Store) PutTag(target githash.Hash, name, message string, keyPEM []byte) (githash.Hash, error) {
 	t, ok := s.get(target)
 	if !ok {
 		return githash.ZeroHash, fmt.Errorf("memstore: tag target missing")
 	}
-	if !strings.HasSuffix(message, "\n") {
-		message += "\n"
+	full, err := EncodeTag(target.String(), t.kind.String(), name, message, keyPEM)
+	if err != nil {
+		return githash.ZeroHash, err
 	}
-	payload := []byte(fmt.Sprintf("object %s\ntype %s\ntag %s\ntagger %s\n\n%s", target.String(), t.kind, name, identLine(), message))
-	sig := ""
-	full := payload
-	if keyPEM != nil {
-		var err error
-		sig, err = SignSSH(payload, keyPEM)
-		if err != nil {
-			return githash.ZeroHash, err
-		}
-		full = append(append([]byte(nil), payload...), []byte(sig)...)
+	payload, sig := full, ""
+	if i := bytes.Index(full, []byte("-----BEGIN SSH SIGNATURE-----")); i >= 0 {
+		payload, sig = full[:i], string(full[i:])
 	}
 	id := s.DB.put(kTag, full, &object{payload: payload, sig: sig, target: target.String(), tkind: t.kind})
 	return mustHash(id), nil
